@@ -252,5 +252,211 @@ theorem alignMoves_ok (ign : List Str) (qn : QName) (R : Tree) (hRn : (ids R).No
     rw [this, hs1]
     exact hs2
 
+theorem alignChildren_ok (ign : List Str) (qn : QName) (R : Tree) (hRn : (ids R).Nodup) (x : Tree)
+    (hx : find x.id R = some x) (l : Nat) (s : DState) (A D : List Nat) (inv : Inv ign R s A D)
+    (hlx : (l, x.id) ∈ s.ms) (hxA : x.id ∈ A) (hkx : (kidIds R x.id).filter (ioB s.inorder) = []) :
+    ∃ s', alignChildren qn R l x s = .ok s' := by
+  rcases alignChildren_prep ign qn R hRn x hx l s A D inv hlx hxA hkx with ⟨h0, _⟩ | ⟨lch, io', heq, invA, _, mlch⟩
+  · exact ⟨s, h0⟩
+  · rw [heq]
+    exact alignMoves_ok ign qn R hRn l x.id A D hxA lch _ invA hlx (fun c hc => (mlch c).mp hc)
+
+/-! ### shapes of the placement steps (for the ancestor invariant) -/
+
+/-- what one successful iteration of the alignment loop does -/
+theorem alignMoves_one_shape (qn : QName) (R : Tree) (l lc : Nat) (s s' : DState)
+    (h : alignMoves qn R l [lc] s = .ok s') :
+    s' = s ∨ ∃ rc rp lt pos sub p1 p2, l2rGet s.ms lc = some rc ∧ R.parentOf rc = some rp ∧
+      r2lGet s.ms rp.id = some lt ∧ find lc s.left = some sub ∧ lc ∉ s.inorder ∧
+      s' = { s with left := moved s.left lc lt pos sub, out := .moveNode p1 p2 pos :: s.out,
+                    inorder := rc :: lc :: s.inorder } := by
+  unfold alignMoves at h
+  split at h
+  · left; simp only [alignMoves, Except.ok.injEq] at h; exact h.symm
+  · next hnin =>
+    have hlcio : lc ∉ s.inorder := by simpa using hnin
+    right
+    cases hrc : l2rGet s.ms lc with
+    | none => rw [hrc] at h; cases h
+    | some rc =>
+      rw [hrc] at h
+      simp only [bind, Except.bind, pure, Except.pure] at h
+      split at h
+      · cases h
+      · next pos hpos =>
+        cases hrp : R.parentOf rc with
+        | none => simp [hrp, throw, throwThe, MonadExceptOf.throw] at h
+        | some rp =>
+          simp only [hrp] at h
+          cases hlt : r2lGet s.ms rp.id with
+          | none => simp [hlt, throw, throwThe, MonadExceptOf.throw] at h
+          | some lt =>
+            simp only [hlt] at h
+            split at h
+            · cases h
+            · next p1 hp1 =>
+              split at h
+              · cases h
+              · next p2 hp2 =>
+                split at h
+                · cases h
+                · next left' hl' =>
+                  unfold moveIn at hl'
+                  cases hfl : find lc s.left with
+                  | none => rw [hfl] at hl'; cases hl'
+                  | some sub =>
+                    rw [hfl] at hl'
+                    simp only [Except.ok.injEq] at hl'
+                    subst hl'
+                    simp only [alignMoves, Except.ok.injEq] at h
+                    exact ⟨rc, rp, lt, pos, sub, p1, p2, rfl, hrp, hlt, rfl, hlcio, h.symm⟩
+
+theorem alignMoves_split (qn : QName) (R : Tree) (l lc : Nat) (rest : List Nat) (s s' : DState)
+    (h : alignMoves qn R l (lc :: rest) s = .ok s') :
+    ∃ s1, alignMoves qn R l [lc] s = .ok s1 ∧ alignMoves qn R l rest s1 = .ok s' := by
+  have := alignMoves_append qn R l [lc] rest s
+  simp only [List.singleton_append] at this
+  rw [this] at h
+  cases h1 : alignMoves qn R l [lc] s with
+  | error e => rw [h1] at h; cases h
+  | ok s1 => rw [h1] at h; exact ⟨s1, rfl, h⟩
+
+theorem not_desc_of_unvisited (ign : List Str) (R : Tree) (s : DState) (A D : List Nat) (inv : Inv ign R s A D)
+    (anc : AncInv s D) (v y : Nat) (hvy : (v, y) ∈ s.ms) (hyD : y ∉ D) :
+    ∀ p ∈ D, ∀ l, r2lGet s.ms p = some l → ¬ Desc s.left v l := by
+  intro p hp l hl hd
+  obtain ⟨z, hz, hzv⟩ := anc p hp l hl v hd
+  have h1 := l2rGet_of_mem s.ms inv.mL v z (r2lGet_mem s.ms z v hzv)
+  have h2 := l2rGet_of_mem s.ms inv.mL v y hvy
+  rw [h1] at h2; injection h2 with h2
+  exact hyD (h2 ▸ hz)
+
+theorem alignMoves_anc (ign : List Str) (qn : QName) (R : Tree) (hRn : (ids R).Nodup) (l xid : Nat) (A D : List Nat)
+    (hxA : xid ∈ A) (lcs : List Nat) (s s' : DState) (inv : Inv ign R s A D) (anc : AncInv s D)
+    (hlx : (l, xid) ∈ s.ms)
+    (hS : ∀ c ∈ lcs, c ∈ kidIds s.left l ∧ ∃ r, l2rGet s.ms c = some r ∧ r ∈ kidIds R xid)
+    (h : alignMoves qn R l lcs s = .ok s') : AncInv s' D := by
+  induction lcs generalizing s with
+  | nil => simp only [alignMoves, Except.ok.injEq] at h; subst h; exact anc
+  | cons lc rest ih =>
+    obtain ⟨s1, h1, h2⟩ := alignMoves_split qn R l lc rest s s' h
+    obtain ⟨hlcK, rc', hrc', hrcK⟩ := hS lc List.mem_cons_self
+    obtain ⟨inv1, hms, _, _, _, _, hk⟩ := alignMoves_inv ign qn R hRn l xid A D hxA [lc] s s1 inv hlx
+      (fun c hc => by simp at hc; rw [hc]; exact hS lc List.mem_cons_self) h1
+    have hS1 : ∀ c ∈ rest, c ∈ kidIds s1.left l ∧ ∃ r, l2rGet s1.ms c = some r ∧ r ∈ kidIds R xid := by
+      intro c hc
+      obtain ⟨a, b⟩ := hS c (List.mem_cons_of_mem _ hc)
+      exact ⟨(hk c).mpr a, by rw [hms]; exact b⟩
+    have anc1 : AncInv s1 D := by
+      rcases alignMoves_one_shape qn R l lc s s1 h1 with e | ⟨rc, rp, lt, pos, sub, p1, p2, hrc, hrp, hlt, hfl, hlcio, e⟩
+      · rw [e]; exact anc
+      · have hrceq : rc = rc' := by rw [hrc] at hrc'; injection hrc'
+        subst hrceq
+        obtain ⟨rp', hrp', hid⟩ := parentOf_some_of_kid R hRn rc xid hrcK
+        rw [hrp] at hrp'; injection hrp' with hrp'
+        subst hrp'
+        have hltl : lt = l := by
+          have := r2lGet_of_mem s.ms inv.mR l xid hlx
+          rw [hid, this] at hlt; injection hlt with hlt; exact hlt.symm
+        subst hltl
+        have hroot : s.left.id ≠ lc := by
+          intro e'
+          have := (parId_iff _ inv.wf lc lt).mpr hlcK
+          rw [← e', root_no_parent _ inv.wf] at this
+          cases this
+        have hmv : MoveOK s.left lc lt sub :=
+          ⟨inv.wf, hfl, hroot, (inv.mdom _ hlx).1, parent_not_in_child s.left inv.wf lc lt sub hlcK hfl⟩
+        have hpl := placed_move s.left lc lt pos sub hmv
+        have hrcM : (lc, rc) ∈ s.ms := l2rGet_mem s.ms lc rc hrc
+        have hrcD : rc ∉ D := by
+          intro hd
+          obtain ⟨_, _, _, _, _, _, _, hh⟩ := inv.vis rc hd
+          have hrcroot : rc ≠ R.id := by
+            intro e'
+            have := (parId_iff R hRn rc xid).mpr hrcK
+            rw [e', root_no_parent R hRn] at this
+            cases this
+          exact hlcio ((inv.ioPair _ hrcM).mpr (hh hrcroot))
+        rw [e]
+        exact AncInv.placed (s := s) anc hpl (fun _ _ => rfl)
+          (not_desc_of_unvisited ign R s A D inv anc lc rc hrcM hrcD)
+    exact ih s1 inv1 anc1 (hms ▸ hlx) hS1 h2
+
+theorem moveStep_shape (qn : QName) (R : Tree) (x : Tree) (l : Nat) (lt : Option Nat) (s s' : DState)
+    (hn : (ids s.left).Nodup) (h : moveStep qn R x l lt s = .ok s') :
+    s' = s ∨ ∃ tgt pos sub p1 p2, lt = some tgt ∧ find l s.left = some sub ∧ s.left.id ≠ l ∧
+      s' = { s with left := moved s.left l tgt pos sub, out := .moveNode p1 p2 pos :: s.out,
+                    inorder := x.id :: l :: s.inorder } := by
+  unfold moveStep at h
+  simp only at h
+  split at h
+  · right
+    cases lt with
+    | none =>
+      simp only [bind, Except.bind, throw, throwThe, MonadExceptOf.throw] at h
+      split at h <;> cases h
+    | some tgt =>
+      simp only [bind, Except.bind, pure, Except.pure] at h
+      split at h
+      · cases h
+      · next pos hpos =>
+        cases hpar : parentOf l s.left with
+        | none => simp [hpar, throw, throwThe, MonadExceptOf.throw] at h
+        | some par =>
+          simp only [hpar, Option.map_some, Option.isNone_some, Bool.false_eq_true, if_false] at h
+          split at h
+          · cases h
+          · next p1 hp1 =>
+            split at h
+            · cases h
+            · next p2 hp2 =>
+              split at h
+              · cases h
+              · next left' hl' =>
+                unfold moveIn at hl'
+                cases hfl : find l s.left with
+                | none => rw [hfl] at hl'; cases hl'
+                | some sub =>
+                  rw [hfl] at hl'
+                  simp only [Except.ok.injEq] at hl' h
+                  subst hl'
+                  have hroot : s.left.id ≠ l := root_ne_of_desc s.left l hn (parentOf_desc l s.left par hpar)
+                  exact ⟨tgt, pos, sub, p1, p2, rfl, rfl, hroot, h.symm⟩
+  · left
+    simp only [pure, Except.pure, Except.ok.injEq] at h
+    exact h.symm
+
+theorem insertStep_shape (qn : QName) (R : Tree) (x : Tree) (lt : Option Nat) (s s' : DState) (l : Nat)
+    (h : insertStep qn R x lt s = .ok (l, s')) :
+    l = s.next ∧ ∃ tgt pos pl act, lt = some tgt ∧
+      s' = { left := Tree.insertChild tgt pos (.node s.next pl []) s.left, ms := (s.next, x.id) :: s.ms,
+             inorder := x.id :: s.next :: s.inorder, out := act :: s.out, next := s.next + 1 } := by
+  cases lt with
+  | none =>
+    simp only [insertStep, bind, Except.bind, throw, throwThe, MonadExceptOf.throw] at h
+    split at h <;> cases h
+  | some tgt =>
+    simp only [insertStep, bind, Except.bind, pure, Except.pure] at h
+    split at h
+    · cases h
+    · next pos hpos =>
+      split at h
+      · cases h
+      · next tp htp =>
+        cases hk : x.payload.kind with
+        | comment =>
+          simp only [hk, Except.ok.injEq, Prod.mk.injEq] at h
+          obtain ⟨rfl, rfl⟩ := h
+          exact ⟨rfl, tgt, pos, _, _, rfl, rfl⟩
+        | elem =>
+          simp only [hk, Except.ok.injEq, Prod.mk.injEq] at h
+          obtain ⟨rfl, rfl⟩ := h
+          exact ⟨rfl, tgt, pos, _, _, rfl, rfl⟩
+
+/-- r2lGet after a new pair is put in front -/
+theorem r2lGet_cons_ne (ms : Matches) (l y c : Nat) (h : c ≠ y) : r2lGet ((l, y) :: ms) c = r2lGet ms c := by
+  simp only [r2lGet]
+  rw [if_neg (fun e => h e.symm)]
+
 end Chw
 end XmlDiffModel
